@@ -6,6 +6,7 @@ Case = {"kind": "sem"|"lim"|"sync-sem"|"sync-lim", "config": S|E|U, ...}
  lim:  {"total": n|inf, "actors": [[step...]]}
        step = ["acq", d, b] | ["nw", d, b] | ["rel", d, b] | ["total", d, v] | ["cancel", ...] | ["relc", d, off, which, native, b]
               | ["totc", d, v, off, which, native]          b: 0 = own task, 1..3 = shared borrower objects
+       both: ["multi", d, [["rel", b] | ["total", v] | ["nw", b] | ["cancel", which, native] ...]]  several actions in one cycle
  sync-*: {"ops": [...]}   histories over the *_nowait / setter API without tasks
 """
 from __future__ import annotations
@@ -17,6 +18,8 @@ import anyio
 from anyio import CapacityLimiter, Semaphore, WouldBlock
 
 from ..actors import run_sim
+from hypothesis import strategies as st
+
 from ..gen import composite
 from ..runner import Outcome
 
@@ -61,12 +64,47 @@ def _gen(g):
             else:
                 ops.append([k, g.int(0, 3)])
         return {"kind": kind, "total": g.choice(TOTALS), "ops": ops}
+    if g.chance(10):
+        # targeted shape: one holder, three waiters queued in a fixed order, then release / cancels of the first
+        # waiters / (limiter) a change of total_tokens all in one loop cycle, in a generated order
+        subs = [["rel", 0], ["cancel", 0, g.chance(60)]]
+        if g.chance(70):
+            subs.append(["cancel", g.choice([0, 0, 1]), g.chance(30)])
+        if kind == "lim" and g.chance(60):
+            subs.append(["total", g.choice([0, 0, 1, 2])])
+        subs = g.draw(st.permutations(subs))
+        tail = [[g.choice(["rel", "nw", "acq"]), g.int(1, 3)] + ([0] if kind == "lim" else []) for _ in range(g.int(0, 2))]
+        b0 = [0] if kind == "lim" else []
+        actors = [[["acq", 0] + b0, ["multi", g.int(4, 6), list(subs)]] + tail,
+                  [["acq", 1] + b0, ["rel", g.int(1, 3)] + b0],
+                  [["acq", 2] + b0, ["rel", g.int(1, 3)] + b0],
+                  [["acq", 3] + b0, ["rel", g.int(1, 3)] + b0]]
+        case = {"kind": kind, "config": g.choice(["S", "S", "E", "U"]), "actors": actors,
+                "nest": g.choice([0, 0, 1]), "adapter": False}
+        if kind == "sem":
+            case.update(initial=1, max=g.choice([None, 1]), fast=g.chance(20))
+        else:
+            case["total"] = 1
+        return case
     n = g.int(2, 5)
     actors = []
     for _a in range(n):
         script = []
         for _ in range(g.int(2, 8)):
             d = g.int(0, 3)
+            if g.chance(12):
+                # several synchronous actions in one loop cycle (release / setter / cancels of queued waiters / nowait)
+                subs = []
+                for _ in range(g.int(2, 4)):
+                    sk = g.weighted([(35, "rel"), (35, "cancel"), (0 if kind == "sem" else 22, "total"), (8, "nw")])
+                    if sk == "cancel":
+                        subs.append([sk, g.choice([0, 0, 1, 2]), g.chance(30)])
+                    elif sk == "total":
+                        subs.append([sk, g.choice(TOTALS)])
+                    else:
+                        subs.append([sk, 0 if kind == "sem" else g.choice([0, 0, 0, 1, 2, 3])])
+                script.append(["multi", d, subs])
+                continue
             if kind == "sem":
                 k = g.weighted([(30, "acq"), (8, "nw"), (28, "rel"), (12, "cancel"), (22, "relc")])
                 if k in ("acq", "nw", "rel"):
@@ -206,7 +244,7 @@ def run_case(case) -> Outcome:
         out.labels.append(kind)
         return out
     stats = {"granted_by_release": 0, "granted_by_total": 0, "cancelled_waiter": 0, "lowered_below_borrowed": 0,
-             "handoff_cancel": 0, "native": 0}
+             "handoff_cancel": 0, "native": 0, "multi_cancel_one_cycle": 0}
     is_sem = kind == "sem"
 
     prebuilt = None
@@ -250,6 +288,7 @@ def run_case(case) -> Outcome:
             return any(w[2] == key for w in waiting.values())
 
         last_b = [0]
+        cap_hist = []        # (cycle, total_tokens, number of borrowers whose acquire has returned) at every look
 
         def watch(where):
             """Grant legality: whenever borrowed_tokens has risen since the last look it must be <= total_tokens.
@@ -258,6 +297,9 @@ def run_case(case) -> Outcome:
             if is_sem:
                 return
             b = prim.borrowed_tokens
+            cap_hist.append((sim.now(), prim.total_tokens, len(held)))
+            if len(cap_hist) > 400:
+                del cap_hist[:200]
             if b > last_b[0] and b > prim.total_tokens:
                 out.bad("over-grant", "lim", f"{where}: borrowed_tokens rose {last_b[0]}->{b} with total_tokens "
                                              f"{prim.total_tokens}")
@@ -399,6 +441,16 @@ def run_case(case) -> Outcome:
             else:
                 if key in held:
                     out.bad("double-borrow-accepted", "lim-wait", f"{key}")
+                # grant legality, second form: a waiter resumes in the cycle after the one in which it was granted the
+                # token, and the grant needs total_tokens > tokens held by others at that instant. total_tokens only
+                # changes at harness calls (all recorded), and the tokens of returned borrowers are a lower bound on
+                # the tokens in use, so "total <= returned holders at every look of the last two cycles" is illegal
+                watch("acquire-returned")
+                pts = [p for p in cap_hist if p[0] >= sim.now() - 1]
+                if pts and all(t <= h for _c, t, h in pts):
+                    out.bad("over-grant", "lim-no-capacity-in-grant-window",
+                            f"{key} was granted a token at cycle {sim.now() - 1}..{sim.now()} although total_tokens "
+                            f"never exceeded the tokens of returned borrowers there: {pts[-6:]}")
                 held[key] = aid
                 if len(held) > prim.total_tokens and prim.borrowed_tokens > prim.total_tokens and before is not None \
                         and prim.borrowed_tokens > before and me[1] == sim.now():
@@ -504,6 +556,30 @@ def run_case(case) -> Outcome:
                 await around(step[2], pick(step[3]), step[4], act)
             elif k == "totc":
                 await around(step[3], pick(step[4]), step[5], lambda: set_total(step[2]))
+            elif k == "multi":
+                ncancel = 0
+                for sub in step[2]:
+                    if sub[0] == "rel":
+                        b = 0 if is_sem else sub[1]
+                        if is_sem:
+                            do_release(aid)
+                            if held.get(aid):
+                                held[aid] -= 1
+                        else:
+                            do_release(aid, b)
+                    elif sub[0] == "total":
+                        set_total(sub[1])
+                    elif sub[0] == "nw":
+                        nowait(aid, 0 if is_sem else sub[1])
+                    else:
+                        target = pick(sub[1])
+                        if target is not None:
+                            ncancel += 1
+                            do_cancel(target, sub[2])
+                if ncancel:
+                    stats["handoff_cancel"] += 1
+                if ncancel >= 2:
+                    stats["multi_cancel_one_cycle"] += 1
 
         async def actor(aid):
             task = asyncio.current_task()
